@@ -8,10 +8,13 @@ import (
 	"encoding/hex"
 	"encoding/json"
 	"fmt"
+	"os"
+	"path/filepath"
 	"sort"
 	"strings"
 	"sync"
 	"testing"
+	"time"
 
 	"golang.org/x/crypto/bcrypt"
 	"golang.org/x/crypto/pbkdf2"
@@ -378,4 +381,147 @@ func TestVerif_C08_Regress_EmptyPbkdf2Key(t *testing.T) {
 			}
 		}
 	}
+}
+
+// ---------------------------------------------------------------------------------------------
+// Definitions in the format of older versions: lists of operators, presenters and others, each entry a username
+// and a password.  They are converted every time the file is read; the conversion decides who gets in.
+
+var c08lRec = verifkit.New("TestVerif_C08_LegacyDefinitions",
+	"group files in the legacy format (op / presenter / other lists, 0..2 entries each, distinct usernames, optionally a username-less fallback entry) read through the "+
+		"description store (which converts them); each entry's password is absent (in that format: any password), a string, a typed record (plain / PBKDF2), or a record that names "+
+		"no usable type ({} / only a key / unknown type); logins by every listed name and by strangers with the right, a wrong and the empty password; oracle: admitted iff the entry "+
+		"has no password at all, or the presented password is the entry's; an entry whose password record has no usable type admits nobody; the role is that of the list; strangers "+
+		"fall to the username-less entry under the same rule; non-trivial = an entry with a record without usable type, or a stranger; distinct by definition+credentials")
+
+var c08lOnce sync.Once
+var c08lRoot string
+
+func TestVerif_C08_LegacyDefinitions(t *testing.T) {
+	defer c08lRec.Flush()
+	c08lOnce.Do(func() { c08lRoot = verifkit.Scratch("c08l") })
+	n := 0
+	rapid.Check(t, func(t *rapid.T) {
+		n++
+		os.MkdirAll(filepath.Join(c08lRoot, "groups"), 0o755)
+		os.MkdirAll(filepath.Join(c08lRoot, "data"), 0o755)
+		Directory = filepath.Join(c08lRoot, "groups")
+		DataDirectory = filepath.Join(c08lRoot, "data")
+		gname := fmt.Sprintf("legacy%d", n%8)
+		type lent struct {
+			role   string
+			kind   string  // how the password is written
+			truth  *string // the password that opens it (nil: none does, or any does)
+			anyPw  bool
+			nobody bool
+		}
+		names := []string{"ann", "ben", "cy", "dee", "eve", "fay"}
+		pool := rapid.Permutation(names).Draw(t, "names")
+		ents := map[string]lent{}
+		var fallback *lent
+		desc := map[string]any{}
+		k := 0
+		mk := func(label string) (any, lent) {
+			kind := rapid.SampledFrom([]string{"absent", "string", "plain", "pbkdf2", "untyped-empty", "untyped-key", "unknown-type"}).Draw(t, label)
+			pw := fmt.Sprintf("pw-%d", k)
+			switch kind {
+			case "absent":
+				return nil, lent{kind: kind, anyPw: true}
+			case "string":
+				return pw, lent{kind: kind, truth: &pw}
+			case "plain":
+				return map[string]any{"type": "plain", "key": pw}, lent{kind: kind, truth: &pw}
+			case "pbkdf2":
+				salt := []byte("ls")
+				key := pbkdf2.Key([]byte(pw), salt, 2, 16, sha256.New)
+				return map[string]any{"type": "pbkdf2", "hash": "sha-256", "key": hex.EncodeToString(key), "salt": hex.EncodeToString(salt), "iterations": 2}, lent{kind: kind, truth: &pw}
+			case "untyped-empty":
+				return map[string]any{}, lent{kind: kind, nobody: true}
+			case "untyped-key":
+				return map[string]any{"key": pw}, lent{kind: kind, nobody: true}
+			default:
+				return map[string]any{"type": "sha1", "key": pw}, lent{kind: kind, nobody: true}
+			}
+		}
+		for _, list := range []struct{ field, role string }{{"op", "op"}, {"presenter", "present"}, {"other", "message"}} {
+			var l []any
+			for i, c := 0, rapid.IntRange(0, 2).Draw(t, list.field+"Entries"); i < c && k < len(pool); i++ {
+				pj, e := mk(list.field + "Password")
+				e.role = list.role
+				m := map[string]any{"username": pool[k]}
+				if pj != nil {
+					m["password"] = pj
+				}
+				ents[pool[k]] = e
+				k++
+				l = append(l, m)
+			}
+			if list.field == "other" && rapid.Bool().Draw(t, "fallbackEntry") {
+				pj, e := mk("fallbackPassword")
+				e.role = "message"
+				m := map[string]any{}
+				if pj != nil {
+					m["password"] = pj
+				}
+				fallback = &e
+				k++
+				l = append(l, m)
+			}
+			if l != nil {
+				desc[list.field] = l
+			}
+		}
+		if len(desc) == 0 {
+			desc["op"] = []any{}
+		}
+		b, _ := json.Marshal(desc)
+		fn := filepath.Join(Directory, gname+".json")
+		os.WriteFile(fn, b, 0o600)
+		os.Chtimes(fn, time.Now().Add(-time.Duration(n)*time.Second), time.Now().Add(-time.Duration(n)*time.Second))
+		defer os.Remove(fn)
+		d, err := GetDescription(gname)
+		if err != nil {
+			t.Fatalf("the legacy definition %s cannot be read: %v", b, err)
+		}
+		who := rapid.SampledFrom(append(append([]string{}, pool[:min(k, len(pool))]...), "stranger", "mallory")).Draw(t, "loginName")
+		target, listed := ents[who]
+		var tp *lent
+		if listed {
+			tp = &target
+		} else {
+			tp = fallback
+		}
+		var pw string
+		switch c := rapid.SampledFrom([]string{"right", "right", "wrong", "empty", "someone-elses"}).Draw(t, "presented"); {
+		case c == "right" && tp != nil && tp.truth != nil:
+			pw = *tp.truth
+		case c == "empty":
+			pw = ""
+		case c == "someone-elses":
+			pw = "pw-0"
+		default:
+			pw = "certainly-wrong"
+		}
+		want := tp != nil && !tp.nobody && (tp.anyPw || (tp.truth != nil && pw == *tp.truth))
+		u := who
+		_, perms, gerr := d.GetPermission(gname, ClientCredentials{Username: &u, Password: pw})
+		got := gerr == nil
+		if got != want {
+			kind := "(no entry)"
+			if tp != nil {
+				kind = tp.kind
+			}
+			t.Fatalf("C08: legacy definition %s: login %q with password %q (entry listed=%v, password written as %s): admitted=%v, want %v (%v)", b, who, pw, listed, kind, got, want, gerr)
+		}
+		if got {
+			wantPerms := c08perm{role: tp.role}.granted(false, false)
+			if setStr(perms) != setStr(wantPerms) {
+				t.Fatalf("C08: legacy definition %s: %q admitted with %v, the list it is in grants %v", b, who, perms, wantPerms)
+			}
+		}
+		c08lRec.Case(!listed || (tp != nil && tp.nobody), fmt.Sprint(string(b), who, pw), map[string]any{"definition": string(b), "login": who, "password": pw, "admitted": got})
+		c08lRec.ClassIf(tp != nil && tp.nobody, "entry_whose_password_names_no_usable_type")
+		c08lRec.ClassIf(!listed, "stranger")
+		c08lRec.ClassIf(got, "admitted")
+	})
 }
